@@ -92,7 +92,9 @@ func NewRun(prop, tier string) (*Run, error) {
 	if err != nil {
 		return nil, err
 	}
-	return &Run{Prop: prop, Tier: tier, Seed: Seed(), Scratch: dir, Start: time.Now(), Known: map[string]int{}, KF: kf}, nil
+	r := &Run{Prop: prop, Tier: tier, Seed: Seed(), Scratch: dir, Start: time.Now(), Known: map[string]int{}, KF: kf}
+	r.SetupGoCache()
+	return r, nil
 }
 
 func (r *Run) Cleanup() {
